@@ -273,7 +273,8 @@ def report(prop, a, seed, results, wall):
     if os.environ.get("VERIF_TRACE") and not a.only:
         os.makedirs(os.path.join(core.ROOT, "coverage"), exist_ok=True)
         ex = sorted({f"{os.path.relpath(f, '/repo')}:{ln}:{nm}" for r in results for f, ln, nm in r.get("executed", [])})
-        json.dump({"property_id": prop, "tier": a.tier, "functions_executed_in_symbolic_runs": ex}, open(os.path.join(core.ROOT, "coverage", f"{prop}.executed.json"), "w"), indent=1)
+        ou = sorted({f"{os.path.relpath(f, '/repo')}:{ln}:{qn}:{par}" for r in results for f, ln, qn, par in r.get("options_used", [])})
+        json.dump({"property_id": prop, "tier": a.tier, "functions_executed_in_symbolic_runs": ex, "optional_parameters_given_a_non_default_value": ou}, open(os.path.join(core.ROOT, "coverage", f"{prop}.executed.json"), "w"), indent=1)
     if not a.no_evidence and not a.only:
         write_evidence(prop, a, seed, results, obl, discharged, total, known_hit, new_viol, wall, code, ledger_msgs)
     for ln in lines:
